@@ -405,7 +405,9 @@ func (c *c19ctx) readText(o c19Out, R []*ref.V, out string, piece bool) string {
 			case xml.StartElement:
 				depth++
 				for _, a := range t.Attr {
-					parts = append(parts, a.Value)
+					if a.Value != "" {
+						parts = append(parts, a.Value)
+					}
 					nattr++
 				}
 			case xml.EndElement:
